@@ -529,15 +529,11 @@ fn apply_real(lv: &mut Live, ev: &Ev) -> String {
             }
             match n.propose(mk_block(*c)) {
                 Ok(i) => format!("proposed:{i}"),
-                Err(e) => {
-                    if e.to_string().contains("not leader") {
-                        "notleader".into()
-                    } else if e.to_string().contains("WAL log persist failed") {
-                        "walfail".into()
-                    } else {
-                        format!("err:{e}")
-                    }
-                }
+                // errors are mapped by VARIANT, never by message wording (a reworded message is not a
+                // behaviour change); `ConsensusError` carries several refusals, told apart by its text
+                Err(tensor_chain::ChainError::StorageError(_)) => "walfail".into(),
+                Err(tensor_chain::ChainError::ConsensusError(m)) if m.contains("not leader") => "notleader".into(),
+                Err(e) => format!("err:{}", format!("{e:?}").split(|c: char| !c.is_alphanumeric()).next().unwrap_or("")),
             }
         }
         Ev::Snap { li, lt, ents, streaming } => {
